@@ -189,7 +189,7 @@ static void run_case(const std::string &line) {
     Part *p = g_parts[j]; char b[160];
     snprintf(b, 160, " P%d{on=%d q=%d", (int)j, (int)p->on, (int)p->inbox.size()); out += b;
     if (p->lib) {
-      snprintf(b, 160, " open=%d ac=%d", (int)p->n->OpenState, (int)p->n->AddressChanged); out += b;
+      snprintf(b, 160, " open=%d ac=%d", (int)p->n->OpenState, (int)p->n->ReadResetAddressChanged()); out += b;     // final dump: the indication as the application reads it
       for (int d = 0; d < p->ndev; d++) {
         tNMEA2000::tInternalDevice &dv = p->n->Devices[d];
         snprintf(b, 160, " d%d=%u/%u/%d/%llx", d, (unsigned)p->n->GetN2kSource(d), (unsigned)dv.AddressClaimEndSource, (int)dv.AddressClaimTimer.IsEnabled(), (unsigned long long)dv.DeviceInformation.GetName()); out += b;
